@@ -69,6 +69,49 @@ def write_reqdata(scratch, man, tag):
     return p
 
 
+_YIELD_IMPORT = '\tzzyield "github.com/cosmos/cosmos-proto/internal/zzverif/zzyield"\n'
+
+
+def instrument_generated(src_path, dst_path):
+    """Copy of a generated *.pulsar.go file with scheduling points inside the fast-path closures:
+    at closure entry, before every nested-message Size/Marshal/Unmarshal call and before every return of
+    the closures. Returns the number of points inserted (0 = file has no fast-path code)."""
+    import re
+    with open(src_path) as fh:
+        lines = fh.readlines()
+    out, n, imported = [], 0, False
+    in_closure = False
+    for line in lines:
+        st = line.strip()
+        if not imported and st == "import (":
+            out.append(line)
+            out.append(_YIELD_IMPORT)
+            imported = True
+            continue
+        if re.match(r"^(size|marshal|unmarshal) := func\(input protoiface\.", st):
+            in_closure = True
+        if in_closure:
+            if re.match(r"^options := runtime\.(Size|Marshal|Unmarshal)InputToOptions\(input\)$", st):
+                out.append(line)
+                out.append('zzyield.Point("enter")\n')
+                n += 1
+                continue
+            if re.search(r"\boptions\.(Size|Marshal|Unmarshal)\(", st) and not st.startswith("//"):
+                out.append('zzyield.Point("nested")\n')
+                n += 1
+            elif re.match(r"^return protoiface\.(Size|Marshal|Unmarshal)Output\s*\{", st):
+                out.append('zzyield.Point("exit")\n')
+                n += 1
+            if st.startswith("return &protoiface.Methods{"):
+                in_closure = False
+        out.append(line)
+    if n == 0 or not imported:
+        return 0
+    with open(dst_path, "w") as fh:
+        fh.writelines(out)
+    return n
+
+
 def prepare(ck, prop, spec, scratch, tier):
     if spec.get("custom") == "c12":
         import c12
@@ -106,6 +149,28 @@ def prepare(ck, prop, spec, scratch, tier):
                 ck.log(outp[-3000:])
                 raise ck.Internal("the map-controlled plugin does not build")
             spec["env"]["VERIF_PLUGIN_MAPCTL"] = pout
+    plain_extra = dict(extra)
+    if spec.get("instrument_yield"):
+        import glob as _glob
+        idir = scratch.path("instrumented")
+        os.makedirs(idir, exist_ok=True)
+        targets = {}
+        for rel in ("testpb", "internal/testprotos/test3"):
+            for f in _glob.glob(os.path.join(ck.REPO, rel, "*.pulsar.go")):
+                targets[f] = f
+        for tgt, src in list(extra.items()):
+            if tgt.endswith(".pulsar.go"):
+                targets[tgt] = src
+        points = 0
+        for i, (tgt, src) in enumerate(sorted(targets.items())):
+            dst = os.path.join(idir, "%03d_%s" % (i, os.path.basename(tgt)) + ".txt")
+            k = instrument_generated(src, dst)
+            if k:
+                extra[tgt] = dst
+                points += k
+        if points == 0:
+            raise ck.Internal("instrumentation of generated code inserted no scheduling point")
+        ck.log("[build] %d scheduling points inserted into %d generated files" % (points, len(targets)))
     ov = ck.build_overlay(scratch, needs, extra)
     out = scratch.path("bin-" + spec["engine"])
     rc, outp = ck.go_build(scratch, ov, ZZ + "/" + spec["engine"], out,
@@ -129,7 +194,8 @@ def prepare(ck, prop, spec, scratch, tier):
         spec["extra_bins"][ex["engine"]] = eout
     if spec.get("race_twin"):
         rout = scratch.path("bin-" + spec["engine"] + "-race")
-        rc, outp = ck.go_build(scratch, ov, ZZ + "/" + spec["engine"], rout, race=True)
+        rov = ck.build_overlay(scratch, needs, plain_extra)  # the race twin runs the generated code as it is
+        rc, outp = ck.go_build(scratch, rov, ZZ + "/" + spec["engine"], rout, race=True)
         if rc != 0:
             ck.log(outp[-6000:])
             raise ck.Internal("race build of the harness failed for " + prop)
